@@ -1,6 +1,6 @@
 """C04 -- a committed path serves the value of the latest evaluation that kept it."""
 from contracts import api, api_stages
-from ._api_common import TRUSTED_API, owner
+from ._api_common import TRUSTED_API, owner, _AnyApiClause
 
 ID = "C04"
 LEVEL = "other"
@@ -9,7 +9,7 @@ TRUSTED = TRUSTED_API
 ASSUMPTIONS = ["A-USER", "A-DET", "A-LOG", "A-FLOAT", "A-ALIAS"]
 LEVEL_TEXT = 'Deductive proof of the single-commit postcondition and of standalone load over the store interface contract; per-store refinement is C08.'
 DESIGN_REF = "5 (C04)"
-REPLAY = {}
+REPLAY = _AnyApiClause()
 owns = owner("C04")
 
 
